@@ -13,9 +13,9 @@ import (
 func init() {
 	core.Register(&core.Check{
 		ID: "C36", Level: "exploration",
-		Rule: "amounts from the pool {0,1,2^53±1,2^63±1,2^64±1,10^30, random <= 2^200} submitted through v2 and v1 HTTP as: posting amount (JSON number), Numscript literal, monetary variable as string, monetary variable as {asset, amount:\"<string>\"} and as {asset, amount:<JSON number>}; the committed amount is then read back from the create response, GET transaction, the account (expand=volumes), volumes listing, aggregated balances, the logs listing and a balance filter (balance[A] >= x / > x), all compared as exact decimal strings. Distinct = (submission form, API version, amount class); non-trivial = amount >= 2^53",
+		Rule:        "amounts from the pool {0,1,2^53±1,2^63±1,2^64±1,10^30, random <= 2^200} submitted through v2 and v1 HTTP as: posting amount (JSON number), Numscript literal, monetary variable as string, monetary variable as {asset, amount:\"<string>\"} and as {asset, amount:<JSON number>}; the committed amount is then read back from the create response, GET transaction, the account (expand=volumes), volumes listing, aggregated balances, the logs listing and a balance filter (balance[A] >= x / > x), all compared as exact decimal strings. Distinct = (submission form, API version, amount class); non-trivial = amount >= 2^53",
 		Assumptions: []string{seqAssume, "Postgres numeric is not exercised"},
-		Run:  runC36,
+		Run:         runC36,
 	})
 }
 
@@ -172,6 +172,74 @@ func runC36(r *core.Run) {
 		}
 		if c.Index < 3 {
 			r.Sample(map[string]any{"form": form, "api": api, "amount": want})
+		}
+	})
+
+	// other spellings of a JSON number (exponent, decimal point): whatever the API decides about them, an
+	// accepted one must be committed with exactly the value it denotes, a refused one must commit nothing
+	r.ForEach("spelling", r.N(400, 8000), 0, func(c *core.Case) {
+		rng := c.Rng
+		d := int64(1 + rng.Intn(9999))
+		k := 15 + rng.Intn(18)
+		v := new(big.Int).Mul(big.NewInt(d), new(big.Int).Exp(big.NewInt(10), big.NewInt(int64(k)), nil))
+		if rng.Intn(3) == 0 {
+			// a value that needs more than 64 significant bits and is not a round power of ten
+			v.Add(v, big.NewInt(int64(1+rng.Intn(1000)))).Mul(v, big.NewInt(1000))
+			d, k = 0, 0
+		}
+		var spelled string
+		switch sp := rng.Intn(4); {
+		case d != 0 && sp == 0:
+			spelled = fmt.Sprintf("%de+%d", d, k)
+		case d != 0 && sp == 1:
+			spelled = fmt.Sprintf("%dE%d", d, k)
+		case d != 0 && sp == 2:
+			spelled = fmt.Sprintf("%d.0e%d", d, k)
+		default:
+			spelled = v.String() + ".0"
+		}
+		form := []string{"posting", "var-object-number"}[c.Index%2]
+		api := []string{"v2", "v1"}[(c.Index/2)%2]
+		e := sim.NewEnv(sim.Options{})
+		defer e.Close()
+		_ = e.CreateLedger("l1", "_default", nil)
+		prefix := "/v2/l1"
+		if api == "v1" {
+			prefix = "/l1"
+		}
+		body := fmt.Sprintf(`{"postings":[{"source":"world","destination":"big","asset":"USD","amount":%s}]}`, spelled)
+		if form == "var-object-number" {
+			plain, _ := json.Marshal("vars {\n monetary $m\n}\nsend $m (\n source = @world\n destination = @big\n)\n")
+			body = fmt.Sprintf(`{"script":{"plain":%s,"vars":{"m":{"asset":"USD","amount":%s}}}}`, plain, spelled)
+		}
+		resp := e.Do("POST", prefix+"/transactions", []byte(body), nil)
+		r.Eval("spelling|"+form+"|"+api+"|"+fmt.Sprint(strings.ContainsAny(spelled, "eE"))+"|"+fmt.Sprint(v.BitLen() > 64), v.BitLen() > 64)
+		r.Seen("spelling_outcomes", fmt.Sprintf("%s/%s exponent=%v status=%d", form, api, strings.ContainsAny(spelled, "eE"), resp.Status))
+		detail := map[string]any{"form": form, "api": api, "spelled": spelled, "denotes": v.String(), "request": body, "status": resp.Status, "response": string(resp.Body)}
+		if resp.Status >= 500 {
+			if len(resp.Body) == 0 {
+				e.C.AbortAll()
+			}
+			c.Violation("C36/server-error-on-amount-spelling:"+form, detail)
+			return
+		}
+		var committed []string
+		for _, t := range e.C.CommittedTransactions("l1") {
+			for _, p := range t.Postings {
+				committed = append(committed, p.Amount.String())
+			}
+		}
+		detail["committed_amounts"] = committed
+		if resp.Status >= 400 {
+			r.Count("amount_spellings_refused", 1)
+			if len(committed) != 0 {
+				c.Violation("C36/refused-amount-spelling-was-committed:"+form, detail)
+			}
+			return
+		}
+		r.Count("amount_spellings_accepted", 1)
+		if len(committed) != 1 || committed[0] != v.String() {
+			c.Violation("C36/accepted-amount-spelling-committed-with-another-value:"+form, detail)
 		}
 	})
 }
